@@ -1,2 +1,3 @@
+@property
 def spec(self):
     return self.pos_current_.peek()
